@@ -42,5 +42,60 @@ Definition vcheck_env (c : vcase) (e1 e2 : Env) : bool :=
   bool_decide (s' = VSt (list_to_map (vc_after c)) (vc_index_after c)) &&
   bool_decide (r = VRes (vc_found c) (vc_unassigned c)).   (* the raw list, in the order the code returned it *)
 
-Definition vcheck (c : vcase) : bool := vcheck_env c env_id env_id && vcheck_env c env_rev env_rev.
+(* the hypothesis of C01_manual_vips_order_invariant, on the observed table: no address is a manual IP
+   of two services *)
+Fixpoint disjoint_from (l : list string) (rest : list (string * vip)) : bool :=
+  match rest with
+  | [] => true
+  | (_, r) :: rest' => forallb (fun x => negb (bool_decide (x ∈ v_manual r))) l && disjoint_from l rest'
+  end.
+Fixpoint uniqb (rows : list (string * vip)) : bool :=
+  match rows with
+  | [] => true
+  | (_, r) :: rest => disjoint_from (v_manual r) rest && uniqb rest
+  end.
+
+Definition vcheck (c : vcase) : bool :=
+  uniqb (vc_before c) && vcheck_env c env_id env_id && vcheck_env c env_rev env_rev && vcheck_env c env_rot env_rev.
 Definition vmismatches (cs : list vcase) : list N := failing_from vcheck 0 cs.
+
+(* ---------- the other map-ranging handlers, one call of the real code per case ---------- *)
+Definition envs3 : list Env := [env_id; env_rev; env_rot].
+
+Record ucase := UCase { u_idx : N; u_deltas : list (string * Z); u_before : list (string * (N * N)); u_after : list (string * (N * N)) }.
+Definition ucheck (c : ucase) : bool :=
+  forallb (fun e => bool_decide (write_usage_deltas (u_idx c) (ordered_items e (list_to_map (u_deltas c))) (list_to_map (u_before c))
+                                 = list_to_map (u_after c))) envs3.
+
+Record tcase := TCase { t_idx : N; t_ds : string; t_news : list string; t_old : list string;
+                        t_before : list (string * string); t_ib : N; t_after : list (string * string); t_ia : N }.
+Definition tcheck (c : tcase) : bool :=
+  let rows (l : list (string * string)) : gmap (string * string) (string * string) :=
+      list_to_map ((fun p => (tkey p.1 p.2, p)) <$> l) in
+  forallb (fun e => let t := update_mesh_topology e (t_idx c) (t_ds c) (t_news c) (list_to_set (t_old c))
+                               (Topo (rows (t_before c)) (t_ib c)) in
+                    bool_decide (t_rows t = rows (t_after c)) && bool_decide (t_index t = t_ia c)) envs3.
+
+Notation addrs := (list (string * (string * N))).
+Record gcase := GCase { g_requested : addrs; g_addrs : addrs; g_result : addrs }.
+Definition gcheck (c : gcase) : bool :=
+  forallb (fun e => bool_decide (ensure_tagged e (list_to_map (g_addrs c)) (list_to_map (g_requested c)) = list_to_map (g_result c))) envs3.
+
+Record hcase := HCase { h_existing : addrs; h_addrs : addrs; h_result : addrs }.
+Definition hcheck (c : hcase) : bool :=
+  forallb (fun e => bool_decide (update_tgw_tagged e env_rev (list_to_map (h_addrs c)) (list_to_map (h_existing c)) = list_to_map (h_result c))) envs3.
+
+Record mcase := MCase { mc_pairs : list (string * string); mc_bad : list string; mc_named : option (string * string) }.
+Definition mcheck (c : mcase) : bool :=
+  forallb (fun e => bool_decide (validate_meta e (fun kv => bool_decide (kv.1 ∈ mc_bad c)) (list_to_map (mc_pairs c)) = mc_named c)) envs3.
+
+Record jcase := JCase { j_known : list string; j_referenced : list string; j_lines : list string }.
+Definition jcheck (c : jcase) : bool :=
+  forallb (fun e => bool_decide (missing_providers (list_to_set (j_known c)) (order e (j_referenced c)) = j_lines c)) envs3.
+
+Definition umismatches (cs : list ucase) : list N := failing_from ucheck 0 cs.
+Definition tmismatches (cs : list tcase) : list N := failing_from tcheck 0 cs.
+Definition gmismatches (cs : list gcase) : list N := failing_from gcheck 0 cs.
+Definition hmismatches (cs : list hcase) : list N := failing_from hcheck 0 cs.
+Definition mmismatches (cs : list mcase) : list N := failing_from mcheck 0 cs.
+Definition jmismatches (cs : list jcase) : list N := failing_from jcheck 0 cs.
